@@ -346,6 +346,11 @@ inline bool plan_effect(Model const& M, ModelTraits const& T, Op const& op, Effe
 			a.exact_empty = b0.exact_empty;
 			if(T.pocca) a.arena = b0.arena;
 			if(same && a0.count() > 0 && !(T.pocca && a0.arena != b0.arena)) e.expect_no_alloc = e.expect_base_unchanged = true;
+			if(op.var == 1) {  // the source is re-indexed to base 1 for the call: other extensions even when the sizes agree, so nothing is known about storage reuse
+				if(T.static_arrays || D == 0 || b0.count() == 0) return false;
+				var("reindexed-source");
+				e.expect_no_alloc = e.expect_base_unchanged = false;
+			} else if(op.var != 0) return false;
 			e.probe_id = (a0.arena != b0.arena && same && a0.count() > 0) ? P_COPY_OTHER_ARENA : same ? P_ASSIGN_SAME_EXT : a0.count() == 0 ? P_ASSIGN_FROM_EMPTY : b0.count() == 0 ? P_ASSIGN_TO_EMPTY : P_ASSIGN_DIFF_EXT;
 		} else if(op.kind == O_ASSIGN_MOVE) {
 			if(T.static_arrays || D == 0) {  // static_array (and 0-D) move assignment: element-wise move, extents equal
@@ -663,8 +668,9 @@ inline bool plan_effect(Model const& M, ModelTraits const& T, Op const& op, Effe
 		}
 		if(op.kind == O_VASSIGN_IL && !il_shape_ok(dv.D, dv.n)) return false;
 		if(op.kind == O_VFILL) {
-			if(op.var < 0 || op.var > 3 || (op.var == 0 && dv.D != 1)) return false;
-			var(op.var == 0 ? "fill" : op.var == 1 ? "begin+n" : op.var == 2 ? "it+=n" : "elements[n]");
+			if(op.var < 0 || op.var > 6 || (op.var == 0 && dv.D != 1)) return false;
+			static char const* const names[] = {"fill", "begin+n", "it+=n", "elements[n]", "end-k", "it-=k", "it=jt"};
+			var(names[op.var]);
 		}
 		if(op.kind == O_EASSIGN_IL && dv.count() > 6) return false;
 		MArr& a        = tgt(0, op.da, op.a);
